@@ -138,10 +138,15 @@ Definition negates (a b : cmpop) : bool :=
 Definition table_ok (t : list (cmpop * cmpop)) : bool := forallb (fun ab => negates (fst ab) (snd ab)) t.
 Definition is_ordering (o : cmpop) : bool := match o with Lt | LtE | Gt | GtE => true | _ => false end.
 Definition is_set (v : value) : bool := match v with VSet _ => true | _ => false end.
-(** the two operands are not both sets and neither is NaN (whenever both evaluate) *)
+(** both operands are numbers (int / bool) or both are strings, whenever both evaluate: the builtin total orders.
+    Sets and NaN are partial orders; instances of user classes may define only some of the comparison methods
+    (`not a < b` works with `__lt__` alone, `a >= b` needs `__ge__` or a reflected `__le__`): the model's objects define
+    none, so nothing is claimed for them. *)
+Definition is_num (v : value) : bool := match num_of v with Some _ => true | None => false end.
+Definition is_strv (v : value) : bool := match v with VStr _ => true | _ => false end.
 Definition totally_ordered_operands (rho : env) (l c : expr) : bool :=
   match eval rho l, eval rho c with
-  | Val v, Val w => negb (is_set v && is_set w) && negb (is_nan v) && negb (is_nan w)
+  | Val v, Val w => (is_num v && is_num w) || (is_strv v && is_strv w)
   | _, _ => true
   end.
 Definition bool_or_raises (rho : env) (l : expr) : bool :=
@@ -243,10 +248,10 @@ Definition generator_site_classes (s : env * builtin * expr * N * expr * list ex
 (** * fix-hasattr-call *)
 Definition inst_only_call (v : value) : bool :=
   match v with VObj _ cls inst => mem_str call_attr inst && negb (mem_str call_attr cls) | _ => false end.
-Definition hasattr_node_ok (rho : env) (n : expr) : bool :=
+Definition hasattr_node_ok (cfg : hasattr_cfg) (rho : env) (n : expr) : bool :=
   match n with
   | ECall BHasattr (a :: rest) =>
-      if last_is_call_lit (a :: rest) then
+      if hasattr_fires cfg a rest then
         match rest with
         | [_] => negb (is_gen a) &&       (* generator objects are outside the value domain of the model *)
                  match eval rho a with Val v => negb (inst_only_call v) | Raise _ => true end
@@ -255,11 +260,11 @@ Definition hasattr_node_ok (rho : env) (n : expr) : bool :=
       else true
   | _ => true
   end.
-Definition hasattr_guard : env -> expr -> bool := bguard hasattr_step hasattr_node_ok.
-Definition hasattr_node_classes (rho : env) (n : expr) : list N :=
+Definition hasattr_guard (cfg : hasattr_cfg) : env -> expr -> bool := bguard (hasattr_step cfg) (hasattr_node_ok cfg).
+Definition hasattr_node_classes (cfg : hasattr_cfg) (rho : env) (n : expr) : list N :=
   match n with
   | ECall BHasattr (a :: rest) =>
-      if last_is_call_lit (a :: rest) then
+      if hasattr_fires cfg a rest then
         match rest with
         | [_] => match eval rho a with Val v => if inst_only_call v then [kf_hasattr_instance_call] else [] | Raise _ => [] end
         | _ => [kf_hasattr_arity]
